@@ -91,11 +91,25 @@ RULE = ("every shape of rank 1..4 with extents <= K (K=3 quick, 5 thorough; quic
         "plus indexing / == / IndexMut / iter_mut / Debug on the same elements; tuples (i64, u8), (u8, i64, u16) and "
         "(char, u32) as elements: odometer layout with blank-separated components, one component per line, CRLF, a char "
         "glued to its number, an incomplete last tuple. "
+        "Element types outside rlib_io (ranks 0..4, both profiles): the zero-sized () and a zero-sized struct, the only "
+        "types with data of ANY length - from_vec / from_slice on shapes whose product overflows usize with data of length "
+        "usize::MAX, usize::MAX-1, 2^63, 2^63-1, the wrapped product (also when it is huge), the high word, 0, 1, and on "
+        "representable shapes (3x5 .. 2^63) with lengths that match the product only after truncation to 32 / 63 bits or "
+        "saturation, zero extents with huge data, `new` of overflowing shapes for (): all rejected (the Coq term keeps the "
+        "shape and replaces data longer than 64 by a short list on which model and specification give the same verdict: "
+        "they look at data only through its length, see zst_surrogate), plus the ordinary history on small unit tensors; "
+        "f64 with NaN (and -0.0) and a three-valued enum whose Unknown equals nothing, NaN at no / one / the last / every "
+        "position, through all three constructors, IndexMut and iter_mut: `sq` evaluates == and != on the SAME object "
+        "(two references), on a clone, on from_vec(dims, iter) and on an explicit partner in both directions and demands "
+        "one answer, which Coq compares with the element-wise comparison (NaN of the tensor and NaN of the partner are "
+        "different codes, so Z.eqb is the element's own PartialEq). "
         "non-trivial = rank >= 2 with at least one indexed access, or a constructor rejection")
 TRUSTED = ["executor harness/crates/c19 (Tensor<E, D> for E = i64, i32, u8, String and D = 0..6, 8, for E = i8, i16, u16, u32, u64, "
            "i128, u128, isize, usize, char, (i64, u8), (u8, i64, u16), (char, u32) and D = 0..3; elements cross the line "
            "protocol in the spelling of std's to_string / parse, never through rlib_io: constructors, get_index, "
            "Index/IndexMut, iter, iter_mut, dims, Writer over a Vec<u8>, Reader + Tensor::read, ==, !=, format!(\"{:?}\"); "
+           "Tensor<(), D>, Tensor<Zst, D>, Tensor<f64, D>, Tensor<Tri, D> (D = 0..4) without io, zero-sized data of a given "
+           "length built by Vec::set_len; "
            "vh::guarded per operation; its internal consistency checks, whose failure is printed as an observation no model "
            "predicts: clone / clone_from target / Tensor::read result / the tensor itself compared observer by observer with "
            "from_vec(dims, iter); independence of copies; count/nth/last/size_hint of iter(); one Writer carrying a scalar and "
@@ -162,6 +176,9 @@ ALPH = "abcdefghijklmnopqrstuvwxyzABCDEFGHIJKLMNOPQRSTUVWXYZ0123456789#*@+-=<>!:
 BADV = -999999999999999
 TM = 1 << 32            # the components of a tuple after the first one are in [0, TM): z = (a * TM + b) * TM + c is injective
 WS = " \n\r\t"
+ZST = ("unit", "zst")          # zero-sized element types: data of any length up to usize::MAX exists
+NONREFL = ("f64", "tri")       # element types whose PartialEq is not reflexive
+NANL, NANR = 10 ** 15 + 1, 10 ** 15 + 2
 
 
 def comps(ty):
@@ -174,6 +191,8 @@ def vstr(x):
 
 def pv(tok):
     """protocol spelling -> int | tuple of ints | BADV"""
+    if tok == "nan":
+        return "nan"
     try:
         if "," in tok:
             return tuple(int(y) for y in tok.split(","))
@@ -182,8 +201,17 @@ def pv(tok):
         return BADV
 
 
-def zenc(v, ty="i64"):
-    """the integer that stands for an element in the Coq case (elements are abstract there)"""
+def zenc(v, ty="i64", right=False):
+    """the integer that stands for an element in the Coq case (elements are abstract there).
+    Element types with a non-reflexive PartialEq (f64, tri): the element that is equal to nothing ("nan": f64::NAN /
+    Tri::Unknown) stands for NANL inside the tensor under test and for NANR inside a comparison partner, so that Z.eqb
+    on the codes is exactly the element's own PartialEq (NaN differs from every element, NaN included); -0.0 == 0.0."""
+    if ty in NONREFL:
+        if v == "nan":
+            return NANR if right else NANL
+        if v == "-0":
+            return 0
+        return v if isinstance(v, int) and abs(v) < (1 << 53) else BADV
     k = len(comps(ty))
     if k == 1:
         return v if isinstance(v, int) else BADV
@@ -271,8 +299,12 @@ def harness_line(c):
     t.append(c["ctor"])
     if c["ctor"] == "N":
         t.append(vstr(c.get("newv", 0)))
-    t.append(str(len(c["data"])))
-    t += [vstr(x) for x in c["data"]]
+    if "zlen" in c:
+        # a zero-sized element type: zlen elements (c["data"] is the stand-in of the Coq term, see zst_surrogate)
+        t.append("*%d" % c["zlen"])
+    else:
+        t.append(str(len(c["data"])))
+        t += [vstr(x) for x in c["data"]]
     for o in c["ops"]:
         k = o[0]
         t.append(k)
@@ -284,7 +316,7 @@ def harness_line(c):
             t += [str(i) for i in o[1]] + [enc_text(o[2])]
         elif k == "eq":
             t += [str(i) for i in o[1]] + [str(len(o[2]))] + [vstr(x) for x in o[2]]
-        elif k == "im":
+        elif k in ("im", "sq"):
             t += [str(len(o[1]))] + [vstr(x) for x in o[1]]
     return " ".join(t)
 
@@ -338,7 +370,7 @@ def parse_obs(c, obs):
             d = [int(x) for x in t[at:at + D]]
             at += D
             res.append((d, take_list()))
-        elif k == "eq":
+        elif k in ("eq", "sq"):
             res.append(t[at])
             at += 1
         else:
@@ -364,8 +396,8 @@ def nl(xs):
     return "[" + ";".join(str(x) for x in xs) + "]%N"
 
 
-def zl(xs, ty="i64"):
-    return "[" + ";".join(zt(zenc(x, ty)) for x in xs) + "]"
+def zl(xs, ty="i64", right=False):
+    return "[" + ";".join(zt(zenc(x, ty, right)) for x in xs) + "]"
 
 
 def lex(text, ty="i64"):
@@ -476,12 +508,15 @@ def coq_term(c, obs, profile):
             elif k == "rd":
                 ops.append("ORead %s %s %s" % (nl(o[1]), lex_in(o[2], ty),
                                                "None" if r is None else "(Some (%s, %s))" % (nl(r[0]), zl(r[1], ty))))
-            elif k == "eq":
-                # "X": == was not symmetric; printed as a value no specification accepts
+            elif k in ("eq", "sq"):
+                # sq: the partner has the shape of the tensor itself; the executor has also compared the tensor with
+                # itself (same object), with its clone and with from_vec(dims, iter) and demands the same answer
+                edims, edata = (o[1], o[2]) if k == "eq" else (c["dims"], o[1])
+                # "X": == was not symmetric / != not its negation / (sq) the answers differ; a value no specification accepts
                 rr = "None" if r is None else ("(Some true)" if r == "1" else "(Some false)" if r == "0" else "None")
                 if r == "X":
-                    rr = "None" if constructible(o[1], len(o[2])) else "(Some true)"
-                ops.append("OEq %s %s %s" % (nl(o[1]), zl(o[2], ty), rr))
+                    rr = "None" if constructible(edims, len(edata)) else "(Some true)"
+                ops.append("OEq %s %s %s" % (nl(edims), zl(edata, ty, True), rr))
     return "(Case %s %s %s %s [%s])" % (nl(c["dims"]), ctor, zl(c["data"], ty), "true" if ok else "false", ";\n ".join(ops))
 
 
@@ -506,10 +541,12 @@ def nontrivial(c, obs):
 
 def classify(c, obs):
     kinds = sorted({o[0] for o in c["ops"]})
-    main = "eq" if "eq" in kinds else "read" if "rd" in kinds else "index_mut" if "s" in kinds else \
+    main = "eq" if ("eq" in kinds or "sq" in kinds) else "read" if "rd" in kinds else "index_mut" if "s" in kinds else \
         "index" if ("g" in kinds or "gi" in kinds) else "other"
     if "im" in kinds:
         main += "+iter_mut"
+    if "zlen" in c:
+        main += "+zst-length"
     if prod(c["dims"]) > BIG or any(o[0] in ("rd", "eq") and prod(o[1]) > BIG for o in c["ops"]):
         main += "+count-overflow"
     ty = c.get("ty", "i64")
@@ -1019,6 +1056,142 @@ def io_type_cases(rng, tier, pool):
     return cases
 
 
+# ----------------------------------------------------------------------------- element types outside rlib_io
+def zst_surrogate(dims, L):
+    """A data vector of a zero-sized type can be longer than any list Coq can hold.  The constructors look at the data
+    only through `len`, and the model / the specification reject (a) every shape with a zero extent and (b) every shape
+    whose product exceeds usize::MAX whatever the data is, and (c) otherwise compare the product with the length.  The
+    Coq term carries a short list that gives the same answer: any short list for (a) and (b), a list of a length
+    different from the product for (c) with product != L.  (c) with product == L > 64 is not representable and not generated."""
+    if L <= 64:
+        return [0] * L
+    P = prod(dims)
+    if any(d == 0 for d in dims) or P > BIG:
+        return [0, 0]
+    assert P != L, (dims, L)
+    return [0] * min(k for k in (0, 1, 2) if k != P)
+
+
+def zst_cases(rng, tier):
+    """constructors of Tensor<(), D> / Tensor<Zst, D> on data of EVERY length class up to usize::MAX"""
+    M = 1 << 64
+    cases = []
+    over = [[1 << 32, 1 << 32], [1 << 32, 2, 1 << 32], [(1 << 63) + 1, 2], [BIG, 2], [BIG, BIG], [3, BIG], [1 << 63, 2],
+            [1 << 22, 1 << 21, 1 << 21], [(1 << 32) + 1, (1 << 32) + 1], [1 << 33, 1 << 31, 3], [1 << 16] * 4]
+    for _ in range(2 if tier == "quick" else 30):
+        r = rng.range(1, 1 << 40)
+        b = rng.choice([3, 5, 7, 255, 257, 65537, (1 << 32) + 1])
+        a = (r * inv64(b)) % M
+        if a * b >= M:
+            over.append(rng.choice([[a, b], [b, a], [a, 1, b]]))
+    for q, sh in enumerate(over):
+        assert prod(sh) > BIG and all(0 < d <= BIG for d in sh)
+        w = prod(sh) % M
+        lens = {BIG, BIG - 1, 1 << 63, (1 << 63) - 1, w, 0, 1, max(sh), (prod(sh) >> 64) & BIG, (w + (1 << 63)) % M}
+        for L in sorted(lens):
+            for ty in ZST:
+                for ctor in ("V", "S"):
+                    cases.append({"dims": sh, "ty": ty, "ctor": ctor, "zlen": L, "data": zst_surrogate(sh, L), "ops": []})
+        # (vec![Zst; n] loops n times in a debug build: `new` of a shape a broken build accepts only for `()`)
+        cases.append({"dims": sh, "ty": "unit", "ctor": "N", "newv": 0, "data": [], "ops": []})
+        cases.append({"dims": [1] * len(sh), "ty": ZST[q % 2], "ctor": "V", "data": [0],
+                      "ops": [["eq", sh, []], ["eq", sh, [0]], ["sq", [0]], ["it"]]})
+    # representable shapes, lengths that agree with the product only after truncation / saturation
+    fit = [[3, 5], [1, 1], [2, 2, 2], [1 << 32, 1 << 31], [1 << 31, 1 << 31], [(1 << 32) - 1, (1 << 32) + 1], [1 << 20, 1 << 20, 1 << 20],
+           [7], [BIG - 1], [1 << 63], [1, (1 << 63) - 1]]
+    for sh in fit:
+        P = prod(sh)
+        assert 0 < P <= BIG
+        lens = {BIG, BIG - 1, 1 << 63, (1 << 63) - 1, 0, P - 1, P + 1, (P + (1 << 32)) % M, (P + (1 << 63)) % M, P % (1 << 32), P % (1 << 63)}
+        for L in sorted(x for x in lens if x != P and 0 <= x <= BIG):
+            for ty in ZST:
+                for ctor in ("V", "S"):
+                    cases.append({"dims": sh, "ty": ty, "ctor": ctor, "zlen": L, "data": zst_surrogate(sh, L), "ops": []})
+    # a zero extent
+    for sh in ([0], [0, 1 << 32], [1 << 63, 0, 4], [BIG, 0], [0, 0]):
+        for L in (0, 1, BIG, 1 << 63):
+            for ty in ZST:
+                for ctor in ("V", "S"):
+                    cases.append({"dims": sh, "ty": ty, "ctor": ctor, "zlen": L, "data": zst_surrogate(sh, L), "ops": []})
+    # tensors that exist: the ordinary history (all elements are equal, offsets still are not)
+    for ty in ZST:
+        for dims in ([], [4], [2, 3], [2, 1, 3], [1, 2, 2, 2]):
+            n = prod(dims)
+            valid = all_idx(dims)
+            for ctor in ("V", "S", "N"):
+                ops = [["dm"], ["it"], ["sq", [0] * n]]
+                for idx in valid:
+                    ops += [["gi", idx], ["g", idx]]
+                for q, idx in enumerate(oor_idx(rng, dims) + oor_multi(rng, dims)):
+                    ops += [["gi", idx], ["g", idx], ["s", idx, 0]]
+                if valid:
+                    ops += [["s", valid[-1], 0]]
+                ops += [["eq", dims, [0] * n], ["eq", list(reversed(dims)), [0] * n], ["eq", dims, [0] * (n + 1)], ["eq", dims, []],
+                        ["im", [0] * (n + 1)], ["sq", [0] * n], ["it"], ["dm"]]
+                if dims:
+                    ops.append(["eq", [n] + [1] * (len(dims) - 1), [0] * n])
+                c = {"dims": dims, "ty": ty, "ctor": ctor, "data": [] if ctor == "N" else [0] * n, "ops": ops}
+                if ctor == "N":
+                    c["newv"] = 0
+                elif n > 0 and rng.chance(1, 2):
+                    c["zlen"] = n
+                cases.append(c)
+    return cases
+
+
+def nonreflexive_cases(rng, tier):
+    """Tensor<f64, D> with NaN among the values, Tensor<Tri, D> with Unknown: == / != on the same object, on a clone,
+    on a rebuilt tensor and on an explicit partner (`sq`) must all be the element-wise comparison"""
+    cases = []
+    shp = [[], [1], [3], [2, 3], [2, 2, 2]] if tier == "quick" else [[], [1], [2], [5], [1, 1], [2, 3], [3, 2], [4, 4], [2, 2, 2], [3, 1, 2], [2, 1, 2, 2]]
+    for ty in NONREFL:
+        val = (lambda k: [3, -7, 0, 12, 1 << 40, -1][k % 6] + k) if ty == "f64" else (lambda k: (k * 5 // 3) % 2)
+        for dims in shp:
+            n = prod(dims)
+            valid = all_idx(dims)
+            plain = [val(k) for k in range(n)]
+            k0 = rng.below(n)
+            variants = [("none", plain), ("one", [("nan" if k == k0 else x) for k, x in enumerate(plain)]),
+                        ("last", plain[:-1] + ["nan"]), ("all", ["nan"] * n)]
+            for name, data in variants:
+                for ctor in ("V", "S"):
+                    cur = list(data)
+                    ops = [["sq", list(cur)], ["dm"], ["it"], ["eq", dims, list(plain)]]
+                    if dims:
+                        ops.append(["eq", list(reversed(dims)), list(cur)])
+                        ops.append(["eq", dims, cur[:-1]])
+                    for idx in valid:
+                        ops += [["g", idx], ["gi", idx]]
+                    # overwrite the NaNs one by one: equal to itself exactly when the last one is gone
+                    for k in [k for k, x in enumerate(cur) if x == "nan"]:
+                        cur[k] = plain[k]
+                        ops += [["s", valid[k], plain[k]], ["sq", list(cur)]]
+                    ops.append(["eq", dims, list(plain)])
+                    # ... and put one back, through IndexMut and through iter_mut
+                    k = rng.below(n)
+                    cur[k] = "nan"
+                    ops += [["s", valid[k], "nan"], ["sq", list(cur)], ["g", valid[k]], ["it"]]
+                    vs = [("nan" if j % 2 else val(j + 3)) for j in range(n)]
+                    cur = list(vs)
+                    ops += [["im", vs], ["sq", list(cur)], ["it"]]
+                    cur = [val(j + 1) for j in range(n)]
+                    ops += [["im", list(cur)], ["sq", list(cur)]]
+                    if ty == "f64":
+                        # 0.0 == -0.0 although the bit patterns differ
+                        z = list(cur)
+                        z[0] = "-0"
+                        cur[0] = 0
+                        ops += [["s", valid[0], 0], ["eq", dims, z], ["s", valid[0], "-0"], ["sq", list(cur)], ["eq", dims, z]]
+                    cases.append({"dims": dims, "ty": ty, "ctor": ctor, "data": list(data), "ops": ops})
+            for v in ("nan", val(2)):
+                cur = [v] * n
+                ops = [["sq", list(cur)], ["it"], ["eq", dims, list(cur)]]
+                cur[-1] = val(2)
+                ops += [["s", valid[-1], val(2)], ["sq", list(cur)], ["eq", dims, [val(2)] * n]]
+                cases.append({"dims": dims, "ty": ty, "ctor": "N", "newv": v, "data": [], "ops": ops})
+    return cases
+
+
 def shapes(maxrank, ext):
     out = []
     for D in range(1, maxrank + 1):
@@ -1110,6 +1283,9 @@ def generate(rng, tier):
                 cases.append(remap_case(c, ty))
     # every other element type rlib_io can read / write, with the boundary magnitudes of the integer types
     cases += io_type_cases(rng.fork("io-types"), tier, base + extra)
+    # element types outside rlib_io: zero-sized (data of any length) and with a non-reflexive PartialEq
+    lrng = rng.fork("lite-types")
+    cases += zst_cases(lrng, tier) + nonreflexive_cases(lrng, tier)
     return cases
 
 
@@ -1130,7 +1306,31 @@ def shrink(c):
             out.append(dict(c, ops=ops[:i] + ops[i + step:]))
     if n == 1 and ops[0][0] in ("w", "rt", "it") and c["ctor"] == "N":
         pass
-    return out
+    # an `sq` op carries the content the tensor has at that point: only variants that keep it true are the same question
+    return [x for x in out if sq_consistent(x)]
+
+
+def sq_consistent(c):
+    if not any(o[0] == "sq" for o in c["ops"]):
+        return True
+    dims = c["dims"]
+    norm = lambda v: 0 if v == "-0" else v
+    n = c.get("zlen", len(c["data"]))
+    if c["ctor"] == "N":
+        cur = [norm(c.get("newv", 0))] * (prod(dims) if constructible(dims, prod(dims)) else 0)
+    else:
+        cur = [norm(x) for x in c["data"]] if "zlen" not in c else [0] * min(n, 64)
+    if not constructible(dims, n if c["ctor"] != "N" else prod(dims)):
+        return True
+    for o in c["ops"]:
+        if o[0] == "s" and all(i < d for i, d in zip(o[1], dims)):
+            cur[offset_of(dims, o[1])] = norm(o[2])
+        elif o[0] == "im":
+            k = min(len(cur), len(o[1]))
+            cur[:k] = [norm(x) for x in o[1][:k]]
+        elif o[0] == "sq" and [norm(x) for x in o[1]] != cur:
+            return False
+    return True
 
 
 # ----------------------------------------------------------------------------- implementation-only search
@@ -1321,7 +1521,9 @@ MANIFEST = {
             "tensor, and character grids in the usual input layouts) from /repo and runs constructor / "
             "get_index / Index / IndexMut / iter / iter_mut / write / read / == / != / Debug histories over all small shapes "
             "(every valid index, every index out of range in exactly one dimension, sampled indices out of range in several), "
-            "shapes whose element count overflows usize, and tensors obtained by clone / clone_from / read; Coq proves model = "
+            "shapes whose element count overflows usize (also with zero-sized elements and data of length up to usize::MAX), "
+            "elements whose equality is not reflexive (NaN; == on the same object, a clone and a rebuilt tensor must agree with "
+            "the element-wise comparison), and tensors obtained by clone / clone_from / read; Coq proves model = "
             "implementation and implementation |= row-major specification on every case; a python-oracle search adds extents "
             "up to 65537 and texts beyond the 64 KiB io buffers (also with 128-bit elements and character grids).",
     "level_note": "Trusted: Coq kernel + vm_compute; the Rust executor (incl. its differential consistency checks), the Python "
